@@ -96,6 +96,13 @@ def emit_expr(o, e):
         return x
     if k == "int":
         return e["v"]
+    if k == "itfld":
+        # inside a foreach over a list of objects: a field of the current element, through the iterator or by index
+        if ITER[-1][1] is not None:
+            return getattr(ITER[-1][1], e["name"])
+        return getattr(ITER[-1][2][ITER[-1][0]], e["name"])
+    if k == "idx":
+        return ITER[-1][0]
     if k == "lit":
         return (vsc.signed if e["s"] else vsc.unsigned)(e["v"], e["w"])
     if k == "bin":
@@ -122,9 +129,28 @@ def emit_expr(o, e):
     raise Exception("emit_expr " + k)
 
 
+ITER = []      # stack of (index term, iterator term or None, list facade) of the enclosing foreach statements
+
+
 def emit_stmts(o, stmts):
     for s in stmts:
         k = s["k"]
+        if k == "foreach_o":
+            lst = o
+            for n in s["list"]:
+                lst = step(lst, n)
+            with vsc.foreach(lst, it=s["it"], idx=s["idx"]) as x:
+                if s["it"] and s["idx"]:
+                    ITER.append((x[0], x[1], lst))
+                elif s["it"]:
+                    ITER.append((None, x, lst))
+                else:
+                    ITER.append((x, None, lst))
+                try:
+                    emit_stmts(o, s["body"])
+                finally:
+                    ITER.pop()
+            continue
         if k == "expr":
             emit_expr(o, s["e"])
         elif k == "soft":
